@@ -28,7 +28,7 @@ def runLeak (c : Case) : String := s!"res {c.id} leaked=0 released=1 closed=1 wh
     unicast subject whose observer is catching up with the backlog returns only after the value has been delivered —
     `Subscribe` and its replay are one critical section of the subject (C10.subjects_wellLocked over the regenerated
     lock skeletons), and `Next` with an observer delivers before it returns (C10.unicast_delivers_outside_lock). -/
-def runNextRet (c : Case) : String := s!"res {c.id} early=0 delivered=1"
+def runNextRet (c : Case) : String := s!"res {c.id} early=0 delivered=1 order=ok"
 
 
 /-- `kind=ctxpair` (C09, time-driven and hand-off operators; go/harness/ctxpair.go): every delivered notification carries the
